@@ -27,6 +27,7 @@ CONSTANTS Proto,         \* "http" | "grpc"
           Deviation,     \* "none" or the name of a seeded deviation (to show that the contract notices it)
           MaxClock,
           CallTO,        \* gRPC export timeout (bounds the whole call): it fires between tick CallTO-1 and CallTO; 0 = none
+          CtxDL,         \* deadline of the caller's context (ticks after the call), 0 = none: the context ends at start + CtxDL
           XCfgs          \* exporter-option dimension: set of [headers, gzip, env, tmo]; the environment picks one
 
 VARIABLES pc, now, start, n, sentAt, lastO, wake, waitFrom, ctx, sdPend, hist, mon, bad, opt
@@ -36,10 +37,15 @@ SetMax(S) == CHOOSE x \in S : \A y \in S : y <= x
 EncOf(xc) == IF xc.gzip THEN "gzip" ELSE "none"
 MCfg(xc) == [proto |-> Proto, enabled |-> Enabled, maxel |-> MaxElapsed, boffmax |-> SetMax(Backoffs),
              tol |-> IF Late THEN 1 ELSE 0, atto |-> IF \E o \in Outcomes : o.kind = "tmpnet" THEN AttTO ELSE 0,
-             cto |-> CallTO, tick |-> 1, want |-> NoWant, nhdr |-> xc.headers, enc |-> EncOf(xc), grp |-> 0]
+             cto |-> CallTO, tick |-> 1, want |-> NoWant, nhdr |-> xc.headers, enc |-> EncOf(xc), grp |-> 0, dl |-> CtxDL]
 (* the export timeout of the whole call has fired *)
 Ignored == IF Deviation = "timeoutIgnored" /\ opt.headers > 0 THEN 3 ELSE 0   \* seeded deviation: timeouts fire 3 ticks late
-DeadlinePassed == CallTO # 0 /\ now - start >= CallTO + Ignored
+DeadlinePassed == (CallTO # 0 /\ now - start >= CallTO + Ignored) \/ (CtxDL # 0 /\ now - start >= CtxDL)
+(* RetryConfig VALUE classes.  MaxElapsed = 0 is "no limit"; the library's default policy (used when NO policy is
+   configured) has a limit of DefaultME.  BIG values (throttle hints, limits, backoff intervals >= DefaultME) only matter
+   relative to DefaultME and to the caller's deadline CtxDL, which ends every wait long before them.
+   Seeded deviation "defaultME": an unlimited or larger configured limit is replaced by the default one. *)
+DefaultME == 60
 
 NoO == [kind |-> "none", code |-> 0, partial |-> FALSE, ri |-> FALSE, thr |-> 0, slow |-> 0]
 Item(i, o, how, at) == [i |-> i, kind |-> o.kind, code |-> o.code, partial |-> o.partial, ri |-> o.ri, thr |-> o.thr,
@@ -118,7 +124,8 @@ RetryPath ==
   LET el == now - start
       thr0 == Throttle(Proto, lastO)
       thr == IF Deviation = "RetryAfterNs" /\ Proto = "http" THEN 0 ELSE thr0
-      me == IF Deviation = "ignoreME" THEN 0 ELSE MaxElapsed
+      me == IF Deviation = "ignoreME" THEN 0
+            ELSE IF Deviation = "defaultME" /\ (MaxElapsed = 0 \/ MaxElapsed > DefaultME) THEN DefaultME ELSE MaxElapsed
   IN IF ~Enabled /\ Deviation # "retryDisabled" THEN Return(TRUE, n, <<>>)
      ELSE IF me # 0 /\ el > me THEN Return(TRUE, n, <<>>)
      ELSE \E b \in Backoffs :
@@ -188,6 +195,6 @@ Terminates == <>(pc \in {"done", "cut"})
 EmitBehaviour ==
   (pc # "done" /\ pc' = "done") =>
      PrintT("EDGE " \o ToJson([proto |-> Proto, enabled |-> Enabled, maxel |-> MaxElapsed, sdint |-> SdInterrupts, hist |-> hist',
-                               callto |-> CallTO, xcfg |-> opt,
+                               callto |-> CallTO, xcfg |-> opt, ctxdl |-> CtxDL, boffs |-> Backoffs,
                                want |-> [attempts |-> n', err |-> (mon'.ret = "err"), handled |-> Cardinality(mon'.handled), clock |-> now']]))
 =============================================================================
